@@ -195,7 +195,22 @@ pub fn c06_native_whole_runs() {
 // @native-harness
 pub fn c07_native_whole_runs() {
     let mut failures = Vec::new();
-    let runs = for_all_runs(&mut |r| {
+    // chemical-reaction runs in which many reactions are rejected for lack of energy: the evaluated products of a rejected reaction
+    // are discarded, but their values were returned by the objective function and count for the reported best
+    let mut extra = 0u64;
+    for seed in 0..12u64 {
+        for (ke0, buffer) in [(10.0, 0.0), (2.0, 5.0)] {
+            let sp = Sphere { returned: Mutex::new(Vec::new()) };
+            let c = cro::real_cro(cro::RealProblemParameters { initial_population_size: 10, mole_coll: 0.3, kinetic_energy_lr: 0.2, alpha: 5, beta: 0.1, initial_kinetic_energy: ke0,
+                buffer, on_wall_deviation: 0.3, decomposition_deviation: 0.5 }, cond(50)).unwrap();
+            let r = run_one("real_cro[rejections]", seed, 50, &sp, &sp.returned, c, &|s: &Vec<f64>| sphere(s));
+            if r.error.is_none() && r.reported_best != r.min_returned {
+                note(&mut failures, "reported-best-vs-minimum-returned", &r, format!("initial kinetic energy {ke0}, buffer {buffer}: best reported at the end is {:?} but the minimum value the objective function returned is {:?}", r.reported_best, r.min_returned));
+            }
+            extra += 1;
+        }
+    }
+    let runs = extra + for_all_runs(&mut |r| {
         if r.error.is_some() { return }
         if r.reported_best != r.min_returned { note(&mut failures, "reported-best-vs-minimum-returned", r, format!("best reported at the end is {:?} but the minimum value the objective function returned is {:?}", r.reported_best, r.min_returned)) }
     });
